@@ -304,6 +304,10 @@ func c01Writers(c *c01) {
 				}
 			}()
 			content := c.content(300)
+			big := id%40 == 1 || id%40 == 2 // FIFO / writer over > 64 KiB (buffer compaction, 32 KiB write chunks)
+			if big {
+				content = rng.Bytes(70000 + rng.Intn(140000))
+			}
 			L := int64(len(content)) * 8
 			if L > 0 && rng.Bool() {
 				L -= int64(rng.Intn(8))
@@ -318,6 +322,9 @@ func c01Writers(c *c01) {
 					k := int64(rng.Intn(90)) + 1
 					if rng.Intn(8) == 0 {
 						k = int64(rng.Intn(2000))
+					}
+					if big {
+						k = int64(rng.Intn(200000)) + 1 // stays below the 32 KiB (262144 bit) chunk of IOBitWriter
 					}
 					k = min(k, L-off)
 					chunk := src.slice(off, k)
@@ -347,6 +354,9 @@ func c01Writers(c *c01) {
 				for rOff < L {
 					if wOff < L && rng.Intn(3) != 0 {
 						k := min(int64(rng.Intn(70))+1, L-wOff)
+						if big {
+							k = min(int64(rng.Intn(40000))+1, L-wOff)
+						}
 						chunk := src.slice(wOff, k)
 						c.logf("Buffer.WriteBits(%d)", k)
 						if wn, err := buf.WriteBits(chunk.b, k); err != nil || wn != k {
@@ -356,6 +366,9 @@ func c01Writers(c *c01) {
 						wOff += k
 					} else {
 						k := int64(rng.Intn(70))
+						if big {
+							k = int64(rng.Intn(60000))
+						}
 						p := rng.Bytes(int(k/8) + 2)
 						avail := wOff - rOff
 						c.logf("Buffer.ReadBits(%d) with %d queued", k, avail)
